@@ -355,6 +355,20 @@ func c16Arrange(r *rand.Rand, s *model.Schema, mode int) arrangement {
 				put(e)
 			}
 		}
+		// files as editors leave them: a byte order mark at the start of a file, a comment on the last line without a
+		// line end after it
+		for fn, text := range files {
+			if fn == "readme.txt" {
+				continue
+			}
+			if r.Intn(2) == 0 {
+				text = strings.TrimRight(text, "\n") + "\n# end of " + fn
+			}
+			if r.Intn(2) == 0 {
+				text = "\xef\xbb\xbf" + text
+			}
+			files[fn] = text
+		}
 		return arrangement{how: fmt.Sprintf("ParseFS over %d files", len(files)-1), files: files}
 	case 5: // every definition in the first load, then each late extension as a load of its own (no new type arrives with it)
 		items := c16Items(r, s, true, true)
